@@ -88,7 +88,7 @@ RawCode(e) == IF e.words.st = "panic" \/ e.words.out_st = "panic" \/ e.words.re_
 Init == l = 1 /\ bad = <<>>
 Next == /\ l <= Len(Rec)
         /\ LET c == IF Rec[l].ev = "load" THEN Code(Rec[l]) ELSE IF Rec[l].ev = "rawload" THEN RawCode(Rec[l]) ELSE 0 IN
-             bad' = IF c = 0 THEN bad ELSE Append(bad, <<l, c>>)
+             bad' = IF c = 0 THEN bad ELSE (IF Len(bad) >= 5000 THEN bad ELSE Append(bad, <<l, c>>))
         /\ l' = l + 1
 Spec == Init /\ [][Next]_vars
 Done == l = Len(Rec) + 1
